@@ -136,6 +136,9 @@ def run(ctx):
     uf = P.call_sites(U, 'Storage::filter_block')
     if uf:
         ctx.ob('C03.r4', U.name, 'set_scripts indexes only the genesis block read back from the store', udu.from_call(uf[0][1].args[1], 'Storage::get_genesis_block'), at=uf[0][1].span)
+    # reviewed reference of the storage functions' durable writes (engine/census.py)
+    from rules import census_fns
+    census_fns.run(ctx, 'C03')
 
 
 def controlled_by(body, cfg, du, block, lookup_block, seen, depth):
